@@ -347,6 +347,7 @@ class World(EventDispatcher):
                                       ON_REMOVE_EVENT_NAME,
                                       component, entity, self)
 
+                if hasattr(component, '__events__'):
                     self.remove_handler(component)
 
             del self._entities[entity]
